@@ -51,7 +51,7 @@ AXIOMS_OK = []
 # Job.evaluate is translated on every run (try/except as a match on the objective's outcome, raise as a result, the
 # re-draw and sync_individual as effects in order) and proved equal to Model/Job.v job_evaluate for all inputs
 from harness.core import translated_specs
-TRANSLATED = translated_specs("SignedCostsGen", "JobGen", "EvalPathGen")
+TRANSLATED = translated_specs("SignedCostsGen", "JobGen", "EvalPathGen", "IndividualInitGen")
 TRUSTED = [
     "Coq 8.16.1 kernel, vm_compute for model evaluation (no native_compute)",
     "hand-written model Model/Job.v (shared with C05) tied to job.py / operators.py by this correspondence run",
